@@ -108,6 +108,12 @@ def job(prog):
         scen = ['ivp', 'eq', 'lc']
         kw = dict(auto_constants=tuple(scen), NMX=1234)
     try:
+        if prog.get('prelude'):      # another model with the same variable names was exported earlier in this process
+            other = dict(prog, perm=(prog['perm'] + 1) % 3, ovr=True, prelude=False)
+            build(other)[0].get_run_func('vf0', 1e-3, backend='fortran', vectorize=False, verbose=False, auto=True, solver='scipy',
+                                         float_precision='float64', file_name='automod0', auto_jac=True, in_place=False)
+            from pyrates import clear_frontend_caches
+            clear_frontend_caches()
         circ.get_run_func('vf', 1e-3, backend='fortran', vectorize=False, verbose=False, auto=True, solver='scipy',
                           float_precision='float64', file_name=fname, auto_jac=True, in_place=False, **kw)
     except Exception as e:
@@ -197,7 +203,7 @@ def apalache_obligations(ctx):
 
 def progs_expr(tier):
     if tier == 'quick':
-        return '[nd : {1, 4, 9, 10, 13}, perm : {0, 2}, nodes : {1}, ovr : {FALSE}, scen : {1}] \\cup ' \
+        return '[nd : {1, 4, 9, 10, 13}, perm : {0, 2}, nodes : {1}, ovr : {FALSE}, scen : {1}] \\cup [nd : {3, 11}, perm : {1}, nodes : {1}, ovr : {FALSE}, scen : {1}, prelude : {TRUE}] \\cup ' \
                '[nd : {3, 5, 8}, perm : {1, 2}, nodes : {2}, ovr : {TRUE}, scen : {2}, rev : BOOLEAN]'
     return '[nd : {1, 2, 4, 8, 9, 10, 11, 14, 20}, perm : {0, 1, 2}, nodes : {1}, ovr : BOOLEAN, scen : {1}] \\cup ' \
            '[nd : {2, 3, 4, 5, 6, 8, 11}, perm : {0, 1, 2}, nodes : {2}, ovr : {TRUE}, scen : {1, 2}, rev : BOOLEAN]'
